@@ -2226,6 +2226,61 @@ def rule_P11(ctx, rid='P11'):
 # P12 a reader visits every index the writer emitted
 # ---------------------------------------------------------------------------
 
+P16_EXCEPTIONS = {
+    'blobs_dtype': 're-derived from the stored blobs when the likelihood returned blobs before',
+    'rng': 'the generator object is kept; only its state is restored',
+}
+
+
+def rule_P16(ctx, rid='P16'):
+    """Configuration belongs to the caller: an attribute that Sampler.__init__ sets from one of
+    its own arguments (batch size, live points, update thresholds, pools, flags) is not assigned
+    again by the resume block.  The writer stores those values for inspection only; a resumed
+    sampler that silently takes them from the file evaluates batches of a size the caller did
+    not configure."""
+    ctx.rule(rid, 'the resume block restores run state only: no attribute that the constructor '
+             'derives from its own arguments is overwritten from the checkpoint')
+    prog = ctx.program
+    init = prog.func('Sampler.__init__')
+    cfg = cfg_of(init)
+    sn = init.self_name
+    params = set(init.params) - {sn}
+    gv = _group_vars(init)
+    # statements of the resume block: those that run under the `resume` guard
+    def in_resume(nid):
+        return any(tx == 'resume' and tr is True for _, tx, tr in cfg.facts(nid))
+    config, restored = {}, {}
+    for st in walk_no_nested(init.node):
+        if not (isinstance(st, ast.Assign) and cfg.has(st)):
+            continue
+        nid = cfg.node_of(st).id
+        for t in st.targets:
+            if isinstance(t, ast.Attribute) and isinstance(t.value, ast.Name) and \
+                    t.value.id == sn:
+                if in_resume(nid):
+                    restored.setdefault(t.attr, st)
+                else:
+                    uses = {x.id for x in ast.walk(st.value) if isinstance(x, ast.Name)}
+                    if uses & params:
+                        config.setdefault(t.attr, st)
+    # locals derived from parameters (n_batch = ... ; self.n_batch = n_batch) count as well
+    n = 0
+    for attr, st in sorted(restored.items()):
+        if attr in P16_EXCEPTIONS:
+            continue
+        n += 1
+        ok = attr not in config
+        ctx.ob(rid, 'Sampler.__init__:restored(%s)-is-run-state' % attr, ok, init.where(st),
+               'attribute %r is run state (not derived from a constructor argument)' % attr
+               if ok else
+               'attribute %r is set from the constructor argument at line %d and then '
+               'overwritten from the checkpoint: a sampler resumed with a different setting '
+               'silently keeps the old one (e.g. batches of the stored size, overshooting '
+               'n_like_max by more than one configured batch)' % (attr, config[attr].lineno))
+    ctx.require(n >= 10, 'P16 saw only %d restored attributes (floor 10)' % n)
+    return n
+
+
 def rule_P2s(ctx, rid='P2'):
     """What is written is the whole array: a dataset (or attribute) written from a *slice* of an
     attribute (`self.points[:N]`) persists a prefix only - the read-back object has a shorter
